@@ -59,12 +59,12 @@ def gen_intersect_cases(rng, tier, kinds=INTERSECT_KINDS):
                 rs = rng.choice([1, 1, 1, 2, 3]) if k not in ("adjacent",) else 1
                 cases.append({"k": k, "l": l, "r": r, "mask": mask, "ls": ls, "rs": rs})
     # gallop-depth sweep: the hit lands at every offset inside the last jump
-    maxd = {"quick": 7, "thorough": 12, "search": 8}[tier]
-    for mask in ([ALL, HEADER] if tier != "thorough" else MASKS):
+    maxd = {"quick": 7, "thorough": 10, "search": 8}[tier]
+    for mask in [ALL, HEADER]:      # masks wide enough for 2n+5 distinct keys
         sh = shift_of(mask)
         n = (1 << maxd) + 3
         long = [((2 * i + 2) << sh) for i in range(n)]
-        step = 1 if tier == "thorough" else max(1, n // 70)
+        step = 3 if tier == "thorough" else max(1, n // 70)
         for p in list(range(0, min(n, 40))) + list(range(40, n, step)) + [n - 2, n - 1]:
             for k in kinds:
                 for hit in (0, 1):           # target present / absent (odd value just below)
@@ -183,6 +183,16 @@ def gen_linear_cases(rng, tier):
         words = sorted(((k << 36) | (rng.randint(0, 3) << 18) | rng.getrandbits(18)) for k in sorted_arr(50, dup=0.8))
         cases.append({"k": "popcount64_reduce", "a": words, "shift": 36, "vmask": (1 << 18) - 1})
         cases.append({"k": "popcount64", "a": [rng.getrandbits(64) for _ in range(rng.randint(0, 12))]})
+        # the same kernels on STRIDED views (every array argument is a[::2] / a[::3] of a larger buffer): the result
+        # must be that of the contiguous copy
+        if rng.random() < 0.35:
+            stc = rng.choice([2, 3])
+            for prev in cases[-12:]:
+                if prev["k"] not in INTERSECT_KINDS and prev["k"] not in ("binary_search", "galloping_search") \
+                        and "st" not in prev and rng.random() < 0.5:
+                    e = dict(prev)
+                    e["st"] = stc
+                    cases.append(e)
         lo = rng.randint(0, 3) << 18
         hi = rng.choice([ALL, rng.randint(0, 3) << 18])
         cases.append({"k": "payload_slice", "a": words, "mask": 0x0000000FFFFC0000, "lo": lo, "hi": hi})
@@ -214,6 +224,15 @@ def _np_arr(vals, stride=1, pad=None):
     return big[0:len(vals) * stride:stride]
 
 
+def _np_f32(vals, stride=1):
+    import numpy as np
+    if stride == 1:
+        return np.array(vals, dtype=np.float32)
+    big = np.full(len(vals) * stride + 1, 12345.0, dtype=np.float32)
+    big[0:len(vals) * stride:stride] = np.array(vals, dtype=np.float32)
+    return big[0:len(vals) * stride:stride]
+
+
 def impl_kernel(c):
     import numpy as np
     import searcharray.roaringish as R
@@ -240,16 +259,17 @@ def impl_kernel(c):
             return [li(a), li(b)]
         a, b, x, y = intersect_with_adjacents(l, r, mask=m)
         return [li(a), li(b), li(x), li(y)]
+    st = c.get("st", 1)          # stride of every array argument of the linear kernels (1 = contiguous)
     if k == "merge":
-        return li(R.merge(_np_arr(c["l"]), _np_arr(c["r"])))
+        return li(R.merge(_np_arr(c["l"], st), _np_arr(c["r"], st)))
     if k == "merge_drop":
-        return li(R.merge(_np_arr(c["l"]), _np_arr(c["r"]), drop_duplicates=True))
+        return li(R.merge(_np_arr(c["l"], st), _np_arr(c["r"], st), drop_duplicates=True))
     if k == "sort_merge_counts":
-        i, cn = R.sort_merge_counts(_np_arr(c["li"]), np.array(c["lc"], dtype=np.float32),
-                                    _np_arr(c["ri"]), np.array(c["rc"], dtype=np.float32))
+        i, cn = R.sort_merge_counts(_np_arr(c["li"], st), _np_f32(c["lc"], st),
+                                    _np_arr(c["ri"], st), _np_f32(c["rc"], st))
         return [[int(a), int(b)] for a, b in zip(i, cn)]
     if k == "unique":
-        return li(R.unique(_np_arr(c["a"]), c["rshift"]))
+        return li(R.unique(_np_arr(c["a"], st), c["rshift"]))
     if k in ("binary_search", "galloping_search"):
         fn = binary_search if k == "binary_search" else galloping_search
         # interior view of a larger buffer whose neighbour holds the target itself (adversarial memory)
@@ -261,17 +281,17 @@ def impl_kernel(c):
         return [int(i), bool(f)]
     if k in ("popcount_reduce_at", "key_sum_over"):
         fn = R.popcount_reduce_at if k == "popcount_reduce_at" else R.key_sum_over
-        i, cn = fn(_np_arr(c["ids"]), _np_arr(c["p"]))
+        i, cn = fn(_np_arr(c["ids"], st), _np_arr(c["p"], st))
         return [[int(a), int(b)] for a, b in zip(i, cn)]
     if k == "popcount64_reduce":
-        i, cn = popcount64_reduce(_np_arr(c["a"]), np.uint64(c["shift"]), np.uint64(c["vmask"]))
+        i, cn = popcount64_reduce(_np_arr(c["a"], st), np.uint64(c["shift"]), np.uint64(c["vmask"]))
         return [[int(a), int(b)] for a, b in zip(i, cn)]
     if k == "popcount64":
-        return li(R.popcount64(_np_arr(c["a"])))
+        return li(R.popcount64(_np_arr(c["a"], st)))
     if k == "payload_slice":
-        return li(payload_slice(_np_arr(c["a"]), np.uint64(c["mask"]), np.uint64(c["lo"]), np.uint64(c["hi"])))
+        return li(payload_slice(_np_arr(c["a"], st), np.uint64(c["mask"]), np.uint64(c["lo"]), np.uint64(c["hi"])))
     if k == "as_dense":
-        d = as_dense(_np_arr(c["idx"]), np.array(c["vals"], dtype=np.float32), c["n"])
+        d = as_dense(_np_arr(c["idx"], st), _np_f32(c["vals"], st), c["n"])
         return [int(v) for v in d]
     raise ValueError("unknown kernel " + k)
 
